@@ -425,7 +425,12 @@ def add_whitespace(rng, s):
     return "".join(out)
 
 
-_LABEL_CHARS = list("abcdefghijklmnopqrstuvwxyzABCDEFGHIJKLMNOPQRSTUVWXYZ0123456789_.-+|/#*%$&!?<>=^~@{}\\\"") + ["é", "中", "β"]
+_LABEL_CHARS = list("abcdefghijklmnopqrstuvwxyzABCDEFGHIJKLMNOPQRSTUVWXYZ0123456789_.-+|/#*%$&!?<>=^~@{}\\\"'") + ["é", "中", "β"]
+
+
+def pick_form(rng, base):
+    base = base.strip("'") or "x"
+    return [base + "'", "'" + base, base + "''", "'" + base + "'"][int(rng.integers(4))]
 
 
 def gen_labels(rng, n):
@@ -435,6 +440,10 @@ def gen_labels(rng, n):
         lab = "".join(_LABEL_CHARS[int(i)] for i in rng.integers(0, len(_LABEL_CHARS), size=k))
         if rng.random() < 0.15:
             lab = str(int(rng.integers(0, 100)))            # numeric-looking labels
+        elif rng.random() < 0.1:
+            # labels that begin or end with an apostrophe (3', 5', A'), next to the same label without it
+            base = out[int(rng.integers(len(out)))] if out and rng.random() < 0.5 else lab
+            lab = pick_form(rng, base)
         if lab not in seen:
             seen.add(lab)
             out.append(lab)
@@ -741,6 +750,12 @@ def build_real(ctx, m, rng, plain=False):
             x.ref = TreeNode(index=x.index)
             continue
         kids = [c.ref for c in x.children]
+        if not plain and rng.random() < 0.4:
+            # nodes are used as dictionary keys / set members while the tree is assembled bottom-up (hashed, compared)
+            # before they get a parent and a distance
+            registry = {k_: True for k_ in kids}
+            seen_ = set(kids)
+            assert len(registry) == len(seen_) == len(kids)
         ds = [c.distance for c in x.children]
         ds = [int(d) if (not plain and float(d).is_integer() and abs(d) < 2**24 and rng.random() < 0.5) else float(d) for d in ds]
         r = 0.0 if plain else rng.random()
